@@ -180,8 +180,8 @@ def _rand_key(rng, shape, write, grow_p=0.25, forms=("int", "int", "int", "int",
                     # starting below the extent (an empty region)
                     a = [I - 1, max(0, I - 2), -1, None][int(rng.integers(0, 4))]
                     b = [None, 0, -I - 1, -I - 3][int(rng.integers(0, 4))]
-                    if b == 0 and a is not None and a % I == 0:
-                        b = None                                  # (never an empty region)
+                    if len(range(*slice(a, b, step).indices(I))) == 0:
+                        b = None                                  # (never an empty region: zero-size results have no representation)
                 key.append({"s": [a, b, step]})
             elif c == 0:
                 key.append({"s": [None, None, None]})
